@@ -25,7 +25,8 @@ META = {
              'each is loaded with its loader and normalised to (assets: id -> name, type, every defense value; set of '
              '(association class, left id, right id); attacker id -> set of (asset id, step)); all three must equal the native '
              'load and the abstract model; non-trivial = model with >= 2 assets, >= 1 link; distinct = digest(spec, model)'
-             '; added strata: the same name twice in a file with ids not ascending, entry points without steps, the language graph regenerated between two loads, exotic characters'),
+             '; added strata: the same name twice in a file with ids not ascending, entry points without steps, the language graph regenerated between two loads, exotic characters'
+             '; round 7: .eom documents stored as ISO-8859-1 / UTF-16 with the XML declaration saying so'),
     'assumptions': ['the emitters in mtv/legacy.py write what the formats mean (validated against the repository\'s own .sCAD / '
                     '0.0.39 sample files: the loaders accept them)', 'attacker names are not part of the .sCAD comparison (the format has none the loader reads)'],
     'shards': {'quick': 8, 'thorough': 16},
